@@ -44,6 +44,13 @@ CHECKS["C38"] = ("exploration", "dense chunk-size sweep monitor of SetMaximumBod
     "Every chunk size in a dense range from the protocol minimum plus log-spaced/random sizes to 2^24, all symmetric policies and modes: the maximal body fits, is block aligned, matches the layout arithmetic, and max+1 does not fit in SignAndEncrypt.",
     "chunk sizes above the dense range are sampled", "3/C38")
 
+CHECKS["C18"] = ("exploration", "exactly-once request/response matching monitor over a call/return log with unique nonces against a scripted reordering/dropping/duplicating server",
+    "Concurrent callers on one channel (opcua.Client and bare uasc with request ids near 2^32) against the independent scripted server; every successful call must return its own nonce, no nonce twice, wrong-typed responses must be errors.",
+    "the scripted server binds each nonce to its request id", "3/C18")
+CHECKS["C22"] = ("exploration", "scripted-server monitor of the session handshake with forged server signatures, client in a child process",
+    "All 5 policies x 2 modes x 12 signature/certificate variants over real secured channels provided by the independent peer; Connect must succeed iff the signature is valid, never activate, never report Connected, never die.",
+    "client configured with the scripted server's certificate via SecurityFromEndpoint", "3/C22")
+
 NOT_YET = {}
 
 
